@@ -2,6 +2,7 @@
 use vstd::prelude::*;
 use crate::cosmwasm_std::{MessageInfo, Uint128, Coin};
 verus! {
+#[derive(Debug)]
 pub enum PaymentError {
     MissingDenom(String), ExtraDenom(String), MultipleDenoms {}, NoFunds {}, NonPayable {},
 }
